@@ -37,6 +37,9 @@ def run(prog: Program, rep, tier: str) -> None:
     rep.check(not bad, "deadline-is-failed-step", cs.qualname, "escape of StepSolverError",
               "the StepSolverError raised at the mid-step deadline cannot escape compute_step", cs.loc(), list(bad[0][2]) if bad else None)
     c07.failure_result(prog, rep, x)
+    # identical trial steps also need fresh controller / penalty state in every solve (C10.3)
+    from . import c10
+    c10.per_solve(prog, rep)
 
 
 def limits_gate_control(prog: Program, rep) -> None:
